@@ -69,12 +69,18 @@ func build(r *kit.Run, nVals int, gen int) *tpl {
 	krng := r.Rand(fmt.Sprintf("keys-%d-%d", nVals, gen))
 	vals := pk.NewKeys(krng, nVals)
 	owner := pk.NewKey(krng)
-	w, err := cs.NewWorld(config.NETWORK_ID_MAIN_NET, vals, owner)
+	wallets := make([]*pk.Key, len(vals))
+	for i := range wallets {
+		if i%2 == 1 { // every second pool entry is registered by a separate wallet account
+		wallets[i] = pk.NewKey(krng)
+		}
+	}
+	w, err := cs.NewWorldWallets(config.NETWORK_ID_MAIN_NET, vals, wallets, owner)
 	if err != nil {
 		r.Inconclusive("world: " + err.Error())
 		return nil
 	}
-	t := &tpl{w: w, outs: pk.NewKeys(krng, 2), name: map[uint64]string{srcVoteA: "vote", srcVoteB: "vote"}}
+	t := &tpl{w: w, outs: append(pk.NewKeys(krng, 2), w.WalletKeys()...), name: map[uint64]string{srcVoteA: "vote", srcVoteB: "vote"}}
 	specs := []cs.ChainSpec{{ID: srcVoteA, Router: utils.VOTE_ROUTER}, {ID: srcVoteB, Router: utils.VOTE_ROUTER},
 		{ID: srcRipple, Router: utils.RIPPLE_ROUTER, Extra: cs.RippleExtra(owner.Addr, 1, 2, 3, [][]byte{{2, 1}, {2, 2}, {2, 3}}, big.NewInt(10))}}
 	t.dests = []uint64{srcVoteA}
@@ -316,7 +322,7 @@ func (c *ctx) round(class string, source uint64, height uint32, extra []byte, p 
 	for i, v := range vals {
 		voters = append(voters, v)
 		if c.rng.Intn(6) == 0 {
-			voters = append(voters, c.t.outs[c.rng.Intn(2)])
+			voters = append(voters, c.t.outs[c.rng.Intn(len(c.t.outs))])
 		}
 		if c.rng.Intn(6) == 0 {
 			voters = append(voters, vals[c.rng.Intn(i+1)])
@@ -474,6 +480,7 @@ func TestC22(t *testing.T) {
 		}
 	}
 	r.Set("destinations_excluded", "BTC and ripple destinations are not account-based (they build native transactions, no request record): excluded")
+	r.Assume("every second validator's pool entry is registered by a separate wallet account (registered address != node-key address); validators are identified by the key-derived address, the wallet accounts vote as outsiders")
 	r.Assume("an import is 'accepted' when the call that brings the distinct-validator count to ceil(2N/3) succeeds (vote-authenticated routers); the verified message of the VOTE router is the voted message itself; for ripple-as-source the router fills ToContractAddress and rewrites Args from its asset binding, so only relay tx hash, source chain, TxHash, CrossChainID, FromContractAddress, ToChainID and Method are compared")
 	r.Assume("the leaf is SHA-256(0x00 ‖ request value) (RFC 6962 leaf hash); a transaction's leaves are what NativeService.GetCrossHashes returns after a successful Invoke, which the ledger appends to the block's cross-state tree")
 	r.Require("accepted_imports", nRounds/3)
